@@ -251,8 +251,14 @@ def check_property(prop: str, tier: str, seed: int) -> int:
     if crashes:
         for c in crashes:
             print("CHECKER-CRASH", c)
+    shown = []
     for v in final_violations:
+        if v not in shown:
+            shown.append(v)
+    for v in shown[:5]:
         print(v)
+    if len(shown) > 5:
+        print(f"({len(shown) - 5} more violations of {prop} recorded under /verif/replays)")
     if final_violations:
         return 1
     if crashes:
